@@ -2,7 +2,7 @@
 import ast
 
 from ..model import AnchorError, call_name, const_str, dotted, src
-from ..rules import FuncView, suffix_match
+from ..rules import FuncView, suffix_match, defect_scope
 from . import _framing
 
 EXPLANATION = (
@@ -19,6 +19,11 @@ NOT_DECIDED = ("crash-at-every-tick durability and contiguity of the record stre
 
 
 def check(ctx):
+    # an internal error (a TypeError from a malformed call, say) inside flush()/cycle() is swallowed by the `except TypeError`
+    # clauses of Logger.log that exist for stamps that are None: the flush then silently never happens
+    ctx.rule("D-scope", "D1 undefined names, D3 unknown self attributes, D4 signature mismatches, D5 format strings, D6, D8 over Log and Logger")
+    defect_scope(ctx, "D-scope", [m for m in ctx.cls("logging", "Log").methods.values()] + [m for m in ctx.cls("logging", "Logger").methods.values()],
+                 max_depth=1, floor=30, label="scope: Log and Logger methods")
     ctx.rule("T3-flush", "Log.flush: only guard is the open-file test; file.flush() then os.fsync(file.fileno()) on that branch")
     ctx.rule("T3-close", "Log.close flushes before closing; Logger.log: logs -> flush test -> flush -> flushStamp")
     ctx.rule("T3-cycle", "Log.cycle ordering and the descending rename chain")
@@ -104,8 +109,21 @@ def check(ctx):
     ctx.check(ok, "T3-cycle", lps[0].ast if lps else cy, "rename chain: for k descending: paths[k] -> paths[k+1]",
               "renaming in ascending order would overwrite the next older copy before it moved: retained records are lost")
     ft = Y.tests(lambda t: src(t) == "not cycled")
-    re1 = [r for r in reo if ft and Y.dominated_by_edge([r], ft[0], "T")]
-    ok = bool(ft) and bool(re1) and Y.dominated_by_edge(trn, ft[0], "F")
+    # the handler(s) of a failed rename, as CFG nodes
+    rtry = [t for t in ast.walk(cy) if isinstance(t, ast.Try) and any(id(ren[0].ast) in {id(y) for y in ast.walk(b)} for b in t.body)]
+    hnodes = [n for n in cfg.nodes if n.kind == "except" and rtry and any(n.ast is h for h in rtry[0].handlers)]
+    flagless = not Y.stores("cycled") and bool(hnodes)
+    if flagless:
+        # no flag: the handler itself leaves the function - nothing it can reach truncates, and every way out reopens for append
+        after = set()
+        for h in hnodes:
+            after |= cfg.reachable(h.id)
+        re1 = [r for r in reo if r.id in after]
+        ok = bool(re1) and not (after & set(Y.ids(trn))) and not (after & set(Y.ids(ren))) and \
+            all(cfg.always_reaches([h.id], Y.ids(re1)) for h in hnodes)
+    else:
+        re1 = [r for r in reo if ft and Y.dominated_by_edge([r], ft[0], "T")]
+        ok = bool(ft) and bool(re1) and Y.dominated_by_edge(trn, ft[0], "F")
     ctx.check(ok, "T3-cycle", cy, "failed rename => reopen (append) and no truncation", "on a failed rotation the current file must be kept and appended to")
     copies = [c for n, c in Y.calls(("shutil.copyfile", "shutil.copy", "shutil.copy2", "shutil.copyfileobj", "shutil.move"))]
     ctx.check(not copies, "T3-cycle", cy, "rotation moves files with os.rename only (no copy-then-truncate)",
@@ -122,6 +140,8 @@ def check(ctx):
     okf = bool(before) and all(isinstance(n.ast, ast.Assign) and isinstance(n.ast.value, ast.Constant) and n.ast.value.value is True for n in before) \
         and bool(inloop) and all(isinstance(n.ast, ast.Assign) and isinstance(n.ast.value, ast.Constant) and n.ast.value.value is False and in_rename_handler(n) for n in inloop) \
         and bool(lps) and Y.dominated([lps[0]], before)
+    if flagless:
+        okf = ok        # established above: a failed rename never reaches the truncation
     ctx.check(okf, "T3-cycle", cy, "`cycled` is True before the rename chain and is only cleared, by the handler of a failed rename",
               "if one rename fails after an older copy moved, the current file has not been moved away: truncating it ('w+') "
               "destroys every record in it; the flag guarding the truncation must mean *all* renames succeeded")
